@@ -12,6 +12,22 @@ func rpcBadRequestError(format string, args ...any) error {
 	return NewRPCError(ErrorCodeBadRequest, fmt.Sprintf(format, args...))
 }
 
+// contractValueOverflows reports whether the values a contract is built from
+// are too large for the contract's outputs, tax and funding costs to be summed
+// without overflow. The values of a request are chosen by the peer.
+func contractValueOverflows(vals ...types.Currency) bool {
+	var sum types.Currency
+	for _, v := range vals {
+		var overflow bool
+		if sum, overflow = sum.AddWithOverflow(v); overflow {
+			return true
+		}
+	}
+	// leave room for the contract tax and the miner fee on top of the sum
+	_, overflow := sum.AddWithOverflow(sum)
+	return overflow
+}
+
 // Validate checks the host prices for validity. It returns an error if the
 // prices have expired or the signature is invalid.
 func (hp *HostPrices) Validate(pk types.PublicKey) error {
@@ -133,6 +149,8 @@ func (req *RPCFormContractRequest) Validate(pk types.PublicKey, tip types.ChainI
 		return rpcBadRequestError("proof height %v exceeds maximum", req.Contract.ProofHeight)
 	case req.Contract.ProofHeight+ProofWindow-req.Prices.TipHeight > maxDuration:
 		return rpcBadRequestError("contract duration %v exceeds max duration %v", req.Contract.ProofHeight+ProofWindow-req.Prices.TipHeight, maxDuration)
+	case contractValueOverflows(req.Contract.Allowance, req.Contract.Collateral, req.Prices.ContractPrice, req.MinerFee):
+		return rpcBadRequestError("contract value is too large")
 	}
 
 	// validate the contract fields
@@ -185,6 +203,10 @@ func (req *RPCRenewContractRequest) Validate(pk types.PublicKey, tip types.Chain
 	minRenterAllowance := MinRenterAllowance(hp, req.Renewal.Collateral)
 	// collateral is risked for the entire contract duration
 	riskedCollateral := req.Prices.Collateral.Mul64(existing.Filesize).Mul64(duration)
+	storageCost := req.Prices.StoragePrice.Mul64(existing.Filesize).Mul64(req.Renewal.ProofHeight + ProofWindow - existing.ExpirationHeight)
+	if contractValueOverflows(req.Renewal.Allowance, req.Renewal.Collateral, riskedCollateral, storageCost, req.Prices.ContractPrice, req.MinerFee, existing.RenterOutput.Value, existing.HostOutput.Value) {
+		return rpcBadRequestError("contract value is too large")
+	}
 	// renewals add collateral on top of the required risked collateral
 	totalCollateral := req.Renewal.Collateral.Add(riskedCollateral)
 
@@ -222,6 +244,10 @@ func (req *RPCRefreshContractRequest) Validate(pk types.PublicKey, tip types.Cha
 	// calculate the minimum allowance required for the contract based on the
 	// host's locked collateral
 	minRenterAllowance := MinRenterAllowance(hp, req.Refresh.Collateral)
+
+	if contractValueOverflows(req.Refresh.Allowance, req.Refresh.Collateral, req.Prices.ContractPrice, req.MinerFee, existing.RenterOutput.Value, existing.HostOutput.Value, existing.TotalCollateral) {
+		return rpcBadRequestError("contract value is too large")
+	}
 
 	var totalHostCollateral types.Currency
 	if partial {
